@@ -109,6 +109,15 @@ func checkC12(c C12Case, o *Obs) error {
 	if len(got) != len(c.Dst)+len(src) || !bytes.Equal(got[:len(c.Dst)], c.Dst) || !bytes.Equal(got[len(c.Dst):], want) {
 		return fmt.Errorf("ReverseComplement(dst=%q, %q) = %q, want dst followed by %q", []byte(c.Dst), src, got, want)
 	}
+	// the result belongs to the caller: scribbling on it must not influence later calls
+	resultCopy := bytes.Clone(got)
+	for i := range got {
+		got[i] ^= 0x5a
+	}
+	if again := sequtil.ReverseComplement(nil, src); !bytes.Equal(again, want) {
+		return fmt.Errorf("after the caller modified an earlier result, ReverseComplement(%q) = %q, want %q", src, again, want)
+	}
+	got = resultCopy
 	back := sequtil.ReverseComplement(nil, got[len(c.Dst):])
 	if !bytes.Equal(back, src) {
 		return fmt.Errorf("applying ReverseComplement twice to %q gives %q", src, back)
@@ -123,11 +132,12 @@ func checkC12(c C12Case, o *Obs) error {
 
 	// Canonical subsequences.
 	collect := func(s []byte) ([][]byte, error) {
-		var items [][]byte
+		var items, kept [][]byte
 		var perr any
 		perr = catch(func() {
 			for x := range sequtil.CanonicalSubsequences(s, k) {
 				items = append(items, bytes.Clone(x))
+				kept = append(kept, x) // the item itself, not a copy
 				if len(items) > len(s)+2 {
 					break
 				}
@@ -135,6 +145,13 @@ func checkC12(c C12Case, o *Obs) error {
 		})
 		if perr != nil {
 			return nil, fmt.Errorf("CanonicalSubsequences(%q,%d) panicked: %v", s, k, perr)
+		}
+		// Nothing says that an item is only valid until the next one is yielded: items kept by
+		// the consumer still hold their k-mers after the loop.
+		for i := range kept {
+			if !bytes.Equal(kept[i], items[i]) {
+				return nil, fmt.Errorf("CanonicalSubsequences(%q,%d): item %d was %q when yielded but reads %q after the loop (items share storage)", s, k, i, items[i], kept[i])
+			}
 		}
 		return items, nil
 	}
@@ -163,6 +180,38 @@ func checkC12(c C12Case, o *Obs) error {
 	ritems, err := collect(want)
 	if err != nil {
 		return err
+	}
+	// An iterator obtained before the sequence buffer is refilled: whatever it iterates over
+	// (the content at call time or at range time), it must be one of the two, consistently.
+	if len(src) >= k && len(src) > 0 {
+		buf := bytes.Clone(src)
+		it := sequtil.CanonicalSubsequences(buf, k)
+		copy(buf, want) // refill the buffer with another valid sequence (the reverse complement)
+		var live [][]byte
+		if p := catch(func() {
+			for x := range it {
+				live = append(live, bytes.Clone(x))
+				if len(live) > len(src)+2 {
+					break
+				}
+			}
+		}); p != nil {
+			return fmt.Errorf("CanonicalSubsequences(%q,%d) ranged after the buffer was refilled panicked: %v", src, k, p)
+		}
+		same := func(a, b [][]byte) bool {
+			if len(a) != len(b) {
+				return false
+			}
+			for i := range a {
+				if !bytes.Equal(a[i], b[i]) {
+					return false
+				}
+			}
+			return true
+		}
+		if !same(live, items) && !same(live, ritems) {
+			return fmt.Errorf("CanonicalSubsequences(%q,%d) created before the buffer was refilled with %q yields %q: neither the canonical k-mers of the old content %q nor of the new content %q", src, k, want, live, items, ritems)
+		}
 	}
 	if len(ritems) != len(items) {
 		return fmt.Errorf("reverse complement of %q yields %d canonical %d-mers, the sequence itself %d", src, len(ritems), k, len(items))
